@@ -22,6 +22,7 @@ import PycsepVerif.Drive.C18
 import PycsepVerif.Drive.Src
 import PycsepVerif.Drive.C18b
 import PycsepVerif.Drive.Text
+import PycsepVerif.Drive.SrcSM
 -- REGISTER-IMPORT (one `import PycsepVerif.Drive.Cxx` line per property, above this line)
 
 /-- the per-property handlers, tried in order; each returns `none` for ops it does not know -/
@@ -50,6 +51,7 @@ def handlers : List (List String → Option String) := [
   , Drive.Src.handle
   , Drive.C18b.handle
   , Drive.Text.handle
+  , Drive.SrcSM.handle
   -- REGISTER-HANDLER (`, Drive.Cxx.handle` lines above this line)
 ]
 
